@@ -41,6 +41,10 @@ CMP_DUNDER = {ast.Gt: "gt", ast.GtE: "ge", ast.Lt: "lt", ast.LtE: "le"}
 COMPONENTS = ("_xvalue", "_yvalue", "_zvalue")
 
 
+import os as _os, sys as _sys
+_sys.path.insert(0, _os.path.dirname(_os.path.abspath(__file__)))
+import tinert
+
 class Bad(Exception):
     pass
 
@@ -56,8 +60,9 @@ def is_name(node, name):
 
 
 class Ctx:
-    def __init__(self, cls, methods, other, assume_var, depth=0):
+    def __init__(self, cls, methods, other, assume_var, depth=0, inert=None):
         self.cls, self.methods, self.other, self.assume_var, self.depth = cls, methods, other, assume_var, depth
+        self.inert = inert
         self.env = {}
 
     # -- class test: True (operand is a variable of class cls) / False / None (not a class test)
@@ -121,6 +126,8 @@ class Ctx:
         for st in stmts:
             if isinstance(st, ast.Expr) and isinstance(st.value, ast.Constant):
                 continue
+            if self.inert is not None and self.inert.skip(st):
+                continue        # print / warn / assert / pure validation guard: no effect on what is returned (tinert.py)
             if isinstance(st, ast.Pass):
                 continue
             if isinstance(st, ast.Assign) and len(st.targets) == 1 and isinstance(st.targets[0], ast.Name):
@@ -282,7 +289,7 @@ def eval_method(fn, cls, methods, assume_var, depth=0, expect_args=None):
     other = params[1] if len(params) == 2 else None
     if expect_args is not None and expect_args != len(params) - 1:
         raise Bad("delegation with the wrong number of arguments")
-    cx = Ctx(cls, methods, other, assume_var, depth)
+    cx = Ctx(cls, methods, other, assume_var, depth, inert=tinert.analysis(fn))
     ret = cx.run(fn.body)
     if ret is None:
         raise Bad("a path does not return")
@@ -304,7 +311,8 @@ def generate(repo):
            "structure OpInfo where", "  op : String", "  order : String", "  selfDomain : Bool", "  bcs : String", "  deriving DecidableEq, Repr", ""]
     status = {}
     for cls, path in (("CellVariable", "src/pyfvtool/cell.py"), ("FaceVariable", "src/pyfvtool/face.py")):
-        tree = ast.parse(open(os.path.join(repo, path)).read())
+        tinert.set_repo(repo)
+        tree = tinert.register(ast.parse(open(os.path.join(repo, path)).read()))
         cdef = [n for n in tree.body if isinstance(n, ast.ClassDef) and n.name == cls][0]
         methods = {}
         for n in cdef.body:
